@@ -70,7 +70,7 @@ def run(ctx):
         raise vlib.MachineryError("no fault could be injected (strace could not attach to the loop thread)")
     ctx.notes.append("%d faults injected" % armed)
     t = drop_misplaced(ctx, t)
-    system.validate(ctx, t, ["TrLife", "TrIn", "TrOut", "TrFd"], "injected faults")
+    system.validate(ctx, t, ["TrLife", "TrFault", "TrIn", "TrOut", "TrFd"], "injected faults")
     t = system.record(ctx, "sys")
     system.validate(ctx, t, ["TrLife"], "real resets among bystanders")
     ctx.assumptions += system.SYS_ASSUME + ["strace -e inject fails exactly the k-th call of one system call on the loop's OS thread (WithLockOSThread)",
